@@ -143,6 +143,47 @@ func genC09(seed uint64, run int, tier string) Scenario {
 	}
 	sc.Ops = []NCOp{{Kind: "getconfig", A: "running"}, {Kind: "close"}}
 	sc.CutEnum = sc.WantVersion != "" && pickCutEnum(run, 12)
+	if r.IntN(6) == 0 {
+		// a transport whose Close does its work and then reports an error (the peer hung up first)
+		sc.F.CloseReturnsErr = true
+	}
+	if r.IntN(30) == 0 && sc.Server.Hello != "" && strings.Contains(sc.Server.Hello, "capabilities>") {
+		// a server with hundreds of YANG modules: a hello of 70-100 KiB
+		var extra strings.Builder
+		var more []string
+		pfx := ""
+		if i := strings.Index(sc.Server.Hello, "capabilities>"); i > 0 {
+			j := strings.LastIndex(sc.Server.Hello[:i], "<")
+			pfx = sc.Server.Hello[j+1 : i]
+		}
+		for i, n := 0, between(r, 520, 760); i < n; i++ {
+			c := fmt.Sprintf("urn:example:params:xml:ns:yang:module-%04d-with-a-name-long-enough-to-fill-a-line?module=module-%04d;revision=2020-%02d-%02d", i, i, 1+i%12, 1+i%28)
+			more = append(more, c)
+			extra.WriteString("<" + pfx + "capability>" + c + "</" + pfx + "capability>")
+		}
+		end := "</" + pfx + "capabilities>"
+		if k := strings.Index(sc.Server.Hello, end); k > 0 {
+			sc.Server.Hello = sc.Server.Hello[:k] + extra.String() + sc.Server.Hello[k:]
+			if sc.WantCaps != nil {
+				sc.WantCaps = append(append([]string(nil), sc.WantCaps...), more...)
+			}
+			sc.CutEnum = false
+			sc.ReadSize = pick(r, 1024, 8192, 65535)
+			if sc.Net.SegMode == "one" || sc.Net.SegMode == "small" || sc.Net.SegMode == "marks" {
+				sc.Net.SegMode = pick(r, "whole", "random")
+			}
+			if sc.Net.LatMode == "trickle" {
+				sc.Net.LatMode = "fixed"
+			}
+			sc.Class += "/big-hello"
+		}
+	}
+	if sc.WantVersion != "" && !sc.CutEnum && r.IntN(12) == 0 {
+		// the transport fails exactly one of the two writes of the client's hello: Open fails and
+		// leaves nothing behind
+		sc.F.WriteErrAt = r.IntN(2)
+		sc.Class += "/hello-write-error"
+	}
 	defer sc.fitTimeouts()
 	if sc.WantVersion != "" {
 		sc.Server.Replies = []peer.NCReply{{Mode: "now", Payload: `<rpc-reply xmlns="urn:ietf:params:xml:ns:netconf:base:1.0" message-id="{MID}"><data><x>1</x></data></rpc-reply>`}}
@@ -174,6 +215,24 @@ func runC09(env *Env, s Scenario) {
 	}
 	raw, hello, helloN, srvVer, reqs, _, _ := nr.Srv.Snapshot()
 	open := &nr.OpenRec
+	if open.Err != nil {
+		// whatever made Open fail: it tears everything down, no goroutine of the library stays
+		if leaked := BubbleStacks(); len(leaked) > 0 {
+			env.Fail("goroutine-left-after-failed-open", "", "Open failed (%v) and left library goroutines behind:\n%s", open.Err, strings.Join(leaked, "\n"))
+		}
+	}
+	if sc.F.WriteErrAt >= 0 {
+		env.Fault("writeerr", nr.Tr.Faults()["writeerr"])
+		if open.Err == nil {
+			env.Fail("open-succeeds-without-its-hello", "", "write %d (the client's hello) failed, Open reported success", sc.F.WriteErrAt)
+		}
+		if nr.Tr.CloseCount() == 0 {
+			env.Fail("transport-left-open", "", "Open failed but the transport was not closed")
+		}
+		env.Probe("hello-write-error")
+
+		return
+	}
 	if sc.WantVersion == "" {
 		if open.Err == nil {
 			env.Fail("open-should-fail", "", "Open succeeded (selected %q) although the decision table says it must fail", nr.Ver)
